@@ -84,6 +84,9 @@ class AsyncTask(futures.FutureBase):
             )
         if _debug_options.COLLECT_PERF_STATS:
             self._id = profiler.incr_counter()
+        else:
+            # Profiling may be switched on while this task is alive; its stats then need an id.
+            self._id = 0
 
     def can_continue(self):
         """Indicates whether this async task has more steps to execute.
